@@ -302,7 +302,7 @@ func reifyStruct(opts *options, orig reflect.Value, cfg *Config) Error {
 			return err
 		}
 		// the tags of the fields the type filled itself
-		if err := validateStruct(to, opts); err != nil {
+		if err := validateStruct(to, opts, validationPath{}); err != nil {
 			return raiseValidation(cfg.ctx, cfg.metadata, "", err)
 		}
 	} else {
